@@ -17,6 +17,10 @@ for res in sorted(glob.glob("/tmp/seedout/*/m*/result.json")):
     for f in os.listdir(d):
         if f in ("result.json", "result.err", "result.first.json") or f.startswith("extra-") or f.startswith("result") or f == ".claim":
             continue
+        # a patch already in the archive is never overwritten: builders rebase archived patches in place when a later
+        # fix: commit touches the same lines (the original is then kept as patch.orig.diff)
+        if f == "patch.diff" and os.path.exists(os.path.join(out, f)):
+            continue
         shutil.copyfile(os.path.join(d, f), os.path.join(out, f))
     meta = json.load(open(os.path.join(d, "meta.json")))
     meta["confirmed_by"] = {
